@@ -610,8 +610,10 @@ Proof.
   intros Hk Hs Hc. unfold gen. destruct (gen_vars [] (pvars p)) as [evs ve] eqn:Eg. simpl sp_events.
   destruct (gen_vars_spec _ _ _ _ _ _ Hk Eg) as [Hve Hcode].
   { intros x t Hl. discriminate. } { intros x r Hl. discriminate. }
-  rewrite code_app, Hcode. simpl app.
-  pose proof (exec_stmts_correct te e ve Hc Hve (pstmts p) Hs [] [] (init_state b0)) as H. rewrite app_nil_r in H.
+  assert (forall nd : list (rdesc * rdesc), code (flat_map (fun an => [EAlloc (fst an); EAlloc (snd an)]) nd) = []) as Hnd
+    by (induction nd; simpl; auto).
+  rewrite !code_app, Hcode, Hnd. simpl app.
+  pose proof (exec_stmts_correct te e ve Hc Hve (pstmts p) Hs [] [] (init_state b0)) as H.
   unfold vm_of in H. simpl in H. rewrite H. destruct (exec_stmts e (pstmts p) (init_state b0)); reflexivity.
 Qed.
 
